@@ -219,16 +219,18 @@ CHECKS["C02"] = dict(
                 "the posix backend does; the signature computation is a recording stand-in. Oracle: every mutating backend call happens after a "
                 "verification that succeeded; a 2xx answer implies one; missing/unknown/invalid credentials end in an error without successful "
                 "mutation. Second harness: AuthReader under each of the three chunk decoders on valid streams - the verification has run by the "
-                "time the decoder reports EOF.",
+                "time the decoder reports EOF. H02b: ValidateDate for an arbitrary request date and clock: accepted exactly within 15 minutes.",
     harnesses=[
         dict(name="H02a-chain", pkgs=["./s3api"], entry="s3api.VfAuthChain", redirects="spec/redirects_auth.json", reach=["answered", "handler-entered"],
              key_trace=['"route=', '"call='], panic_ok=True),
         dict(name="H02a-deferred", pkgs=["./s3api/utils"], entry="s3api/utils.VfDeferredAuth", redirects="spec/redirects_deferred.json", reach=["drained", "accepted"]),
+        dict(name="H02b-date", pkgs=["./s3api/utils"], entry="s3api/utils.VfDateWindow", redirects="spec/redirects.json", reach=["accepted", "refused"]),
     ],
     assumptions=["CheckValidSignature / CheckPresignedSignature return an arbitrary verdict (what a correct signature is - canonical request, HMAC chain - is outside)",
                  "the posix backend's body consumption is modelled by the recorder hooks (reads to EOF, fails on read error; directory objects unread)",
                  "access/lock decision functions are stand-ins; time.Now is a fixed instant inside the request's validity window"],
-    outside=["aws/signer/v4", "date-window and scope arithmetic (H02b: not built)", "admin API", "body content beyond 2 bytes in the chain harness"],
+    outside=["aws/signer/v4 (canonical request, HMAC chain, header selection in createHttpRequestFromCtx)",
+             "presigned expiry arithmetic (validateExpiration goes through float64 seconds: floats are not encoded)", "admin API", "body content beyond 2 bytes in the chain harness"],
 )
 
 _FS = dict(pkgs=["./backend/posix"], redirects="spec/redirects_fs.json", pkgname="posix")
